@@ -573,10 +573,8 @@ impl Store {
         if filter.num_ids() > 0 {
             // Fetch by id
             for id in filter.ids() {
-                // Stop if limited
-                if output.len() >= filter.limit() as usize {
-                    break;
-                }
+                // (the limit is applied at the end, to the newest events; stopping
+                // here would keep the first-listed ids instead)
                 if let Some(event) = self.get_event_by_id(id)? {
                     // and check each against the rest of the filter
                     if filter.event_matches(event)? && screen(event) {
